@@ -6,7 +6,7 @@ import textwrap
 
 from hypothesis import strategies as st
 
-from vf.gen.strlits import fam_string_literals
+from vf.gen.strlits import fam_reported_shapes, fam_string_literals
 
 ITERS = ["range(5)", "[3, 1, 2]", "[]", "[0, 0, 4]", "(1, 2, 3)", "range(2, 7)", "[5]", "data", "sorted({4, 2})"]
 CONDS = ["x > 1", "x % 2 == 0", "x", "not x", "x in (1, 3)", "x != 2", "x >= 0 and x < 4", "True", "check(x)"]
@@ -404,6 +404,19 @@ def fam_boolean(d):
     return PRELUDE + body
 
 
+def fam_boolean_calls(d):
+    """Boolean combinations whose operands are calls / attributes / subscripts (not plain names), from a small shared operand
+    pool: what the sympy-based simplification maps to generated symbols.  The operands are pure, so reordering is invisible."""
+    ops = ["p(v)", "q(v)", "r(v)", "d.get(v)", "v.real", "data[0] > v", "p(v + 1)", "flags[v % 2]"]
+    a, b, c = d.pick(ops), d.pick(ops), d.pick(ops)
+    e = d.pick(["({a} and {b}) or ({a} and {c})", "not ({a} and {b})", "({a} or {b}) and ({a} or {c})", "{a} and ({a} or {b})", "not (not {a} or {b})",
+                "({a} and {b}) or ({a} and not {b})", "not (not {a} and not {b})", "({a} or {b}) and not {a}", "{a} or (not {a} and {b})",
+                "not ({a} or {b}) or {c}", "({a} and {b} and {c}) or ({a} and {b})"]).replace("{a}", a).replace("{b}", b).replace("{c}", c)
+    pre = ("def p(v):\n    return v % 2 == 0\ndef q(v):\n    return v > 2\ndef r(v):\n    return v in (1, 4)\nd = {1: 1, 3: 0}\nflags = [True, False]\n")
+    use = d.pick(["def t(v):\n    if {e}:\n        return 'y'\n    return 'n'\n", "def t(v):\n    return bool({e})\n", "def t(v):\n    w = 1 if {e} else 2\n    return w\n"]).replace("{e}", e)
+    return PRELUDE + pre + use + "for k in [0, 1, 2, 3, 4, 7]:\n    print(t(k))\n"
+
+
 def fam_naming(d):
     body = d.pick([
         "someValue = 3\ndef ComputeThing(inputValue):\n    LocalVar = inputValue + someValue\n    return LocalVar\nprint(ComputeThing(2))\n",
@@ -424,9 +437,26 @@ def fam_naming(d):
 
 
 def fam_constants(d):
-    s = d.pick(["some/long/path/constant", "another fairly long literal", "k", "12345 starts with digits and is long", (10, 20, 30, 40, 50, 60, 70), [1.5, 2.5, 3.5, 4.5, 5.5, 6.5]])
+    pool = ["some/long/path/constant", "another fairly long literal", "k", "12345 starts with digits and is long", (10, 20, 30, 40, 50, 60, 70),
+            [1.5, 2.5, 3.5, 4.5, 5.5, 6.5], "a sentence, with punctuation; and more!", "second sentence: not an identifier?", "third one (with brackets) & signs",
+            ("tuple", "of", "several", "strings", "here"), {"a set", "of two long strings"} and "set members, sorted: a, b"]
+    k = d.pick([1, 1, 2, 3])
+    consts = []
+    for _ in range(k):
+        c = d.pick(pool)
+        if c not in consts:
+            consts.append(c)
     n = d.int(2, 7)
-    lines = [f"v{i} = {s!r}" for i in range(n)] + ["print(" + ", ".join(f"v{i}" for i in range(n)) + ")"]
+    counts = [n if d.chance(2) or i == 0 else d.int(2, 7) for i in range(len(consts))]  # equal counts are the interesting tie
+    lines = []
+    names = []
+    for ci, (c, cnt) in enumerate(zip(consts, counts)):
+        for i in range(cnt):
+            names.append(f"v{ci}_{i}")
+            lines.append(f"v{ci}_{i} = {c!r}")
+    if d.chance(3):
+        lines = [lines[i] for i in d.draw(st.permutations(list(range(len(lines)))))]
+    lines.append("print(" + ", ".join(names) + ")")
     if d.chance(2):
         return "def f():\n" + "".join(f"    {l}\n" for l in lines) + "f()\n"
     return "\n".join(lines) + "\n"
@@ -590,7 +620,7 @@ FAMILIES = {
     "move_before_loop": fam_move_before_loop, "classes": fam_classes, "duplicates": fam_duplicates, "builtin_chains": fam_builtin_chains,
     "defaultdict": fam_defaultdict, "boolean": fam_boolean, "naming": fam_naming, "constants": fam_constants, "imports": fam_imports,
     "strings": fam_strings, "raise_from": fam_raise_from, "starred": fam_starred, "context_manager": fam_context_manager, "math": fam_math,
-    "layout": fam_layout, "misc_rewrites": fam_misc_rewrites, "loop_state": fam_loop_state, "string_literals": fam_string_literals, "loop_exit": fam_loop_exit,
+    "layout": fam_layout, "misc_rewrites": fam_misc_rewrites, "loop_state": fam_loop_state, "string_literals": fam_string_literals, "loop_exit": fam_loop_exit, "boolean_calls": fam_boolean_calls, "reported_shapes": fam_reported_shapes,
 }
 NUMPY_FAMILIES = {"numpy": fam_numpy}
 
